@@ -31,6 +31,9 @@ func main() {
 	case o.Replay != "":
 		runReplay(o)
 	default:
+		if strings.HasPrefix(o.Extra, "corpus=") {
+			runCorpus(o, strings.TrimPrefix(o.Extra, "corpus="))
+		}
 		exactCases(o)
 		anchors := buildAnchors(o)
 		writeAnchors(o, anchors)
